@@ -283,9 +283,19 @@ def main(prop, argv):
     for fid, (e, c, impl, model) in sorted(known_hit.items()):
         print(f"KNOWN-FINDING: property={pid} {e['what']} [{fid}]")
     rc = 0
-    if violations:
+    # a disagreement that only shows that the MODEL no longer describes the code (an algorithm trace, not a wrong result) is a broken
+    # correspondence: reported with a concrete failing input if any other comparison found one, otherwise as no-failing-input-found
+    soft = [v for v in violations if v.get('broken_correspondence')]
+    if soft and len(soft) == len(violations):
+        broken = broken + [f"correspondence {v['broken_correspondence']}: {v['what']} (input: {json.dumps(v.get('case', {}))[:600]})" for v in soft[:5]]
+        violations_real = []
+    else:
+        violations_real = [v for v in violations if not v.get('broken_correspondence')]
+    if violations_real:
+        violations = violations_real + soft
         # smallest case first
-        violations.sort(key=lambda v: len(json.dumps(v.get('case', {}))))
+        violations_real.sort(key=lambda v: len(json.dumps(v.get('case', {}))))
+        violations = violations_real + soft
         v = violations[0]
         payload = {'property': pid, 'seed': args.seed, 'tier': tier, 'violation': v,
                    'cases': [v['case']] if 'case' in v else [], 'broken_obligations': broken,
